@@ -69,6 +69,18 @@ def _g_zero(c, k, mu, sigma_squared, team, rank):
     return 0.0
 
 
+def _g_int_one(c, k, mu, sigma_squared, team, rank):
+    return 1  # a Python int, as `lambda *a: 1` returns
+
+
+def _g_int_zero(c, k, mu, sigma_squared, team, rank):
+    return 0  # "freeze sigma": exactly zero, and an int
+
+
+def _g_int_k_minus_rank(c, k, mu, sigma_squared, team, rank):
+    return max(int(k) - int(rank), 0)  # integer-valued, zero for the last place in tie-free games
+
+
 def _g_dep(c, k, mu, sigma_squared, team, rank):
     # depends smoothly on every argument, dimensionless, > 0
     return (
@@ -126,6 +138,9 @@ GAMMAS = _Gammas({
     "three": _g_three,
     "zero": _g_zero,
     "dep": _g_dep,
+    "int_one": _g_int_one,
+    "int_zero": _g_int_zero,
+    "int_k_minus_rank": _g_int_k_minus_rank,
     "boom": _g_boom,
     "boom_type": _mk_boom(TypeError),  # what a buggy callback really raises: None + 1, a missing key, a bad attribute
     "boom_key": _mk_boom(KeyError),
